@@ -15,7 +15,10 @@ def check(run, replay=None):
               "cases for derive_child_pubkey (incl. identity parent, hardened index), get_finger_print and to_string of hand-made keys "
               "(incl. the panicking identity key), Base58 of byte strings with 0..n leading zero bytes vs bs58 and the decode round "
               "trip; implementation-only oracle = independent Rust CKDpub/serialisation/Base58 (BigUint) reference, child = parent + "
-              "offset*G, key = root + (sum of offsets)*G, demanded error variants, BIP32 test vectors 1 and 2 (public derivations); "
+              "offset*G, key = root + (sum of offsets)*G, composition along the path (every path of 2..255 levels is split at a "
+              "case-dependent level and the second half derived from the intermediate extended key: same key, chain code, parent "
+              "fingerprint, child number, root-based depth, or the same error -- derive_xpub_splits), demanded error variants, BIP32 "
+              "test vectors 1 and 2 (public derivations); "
               "non-trivial = successful derivations of depth >= 2"),
         assumptions=["HMAC-SHA512, SHA-256 and RIPEMD-160 are uninterpreted functions (theorems hold for every function; hmac_len: "
                      "64-byte HMAC output is a premise where the 78-byte layout matters)",
